@@ -48,7 +48,8 @@ Lemma rus_loop_fine : forall reads ln last pre, rus_fine (rus_loop reads ln last
 Proof.
   induction reads as [|[frag p] reads IH]; intros ln last pre; simpl.
   - destruct (pre || negb (is_semi last)).
-    + destruct (last_char_ok ln last) as [c Hc]. rewrite Hc. right. eauto.
+    + destruct (last_char_ok ln last) as [c Hc]. rewrite Hc.
+      destruct (is_semi c); [left; exists ln, []; split; [reflexivity|simpl; lia]|right; eauto].
     + left. exists ln, []. split; [reflexivity|simpl; lia].
   - destruct (pre || negb (is_semi last)).
     + destruct (last_char_ok (ln ++ frag) last) as [c Hc]. rewrite Hc.
@@ -64,7 +65,8 @@ Lemma rus_consumes : forall reads ln rest,
 Proof.
   intros reads ln rest. unfold read_until_semicolon.
   destruct reads as [|[frag p] reads]; cbn [rus_loop orb].
-  - destruct (last_char_ok "" "0"%char) as [c Hc]. rewrite Hc. discriminate.
+  - (* nothing read: lastChar is still '0' (fix b303e0a returns the end of file then) *)
+    discriminate.
   - destruct (last_char_ok ("" ++ frag) "0"%char) as [c Hc]. rewrite Hc.
     intros H. destruct (rus_loop_fine reads ("" ++ frag) c p) as [(l & r & Heq & Hle)|(l & Heq)];
       rewrite Heq in H; inversion H; subst. simpl. lia.
